@@ -1,6 +1,8 @@
 import NanoVerif.Model.Proto
 import NanoVerif.Model.Tensor
 import NanoVerif.Model.TensorView
+import NanoVerif.Model.TensorStorage
+import NanoVerif.Model.TensorRange
 /-! driver family `tensor` (C16): one self-contained op per line -/
 namespace NanoVerif.Driver.Tensor
 open NanoVerif.Proto NanoVerif.Tensor
@@ -59,7 +61,148 @@ def assignTo (dst : String) (buf : List Int) (v : View) : Option (T Int) :=
 
 def absInt (x : Int) : Int := if x < 0 then -x else x
 
+/-! ### histories over the heap model (`Model/TensorStorage.lean`) -/
+section Hist
+open NanoVerif.Tensor.Store
+
+/-- slot `i` of a history with `k` slots per storage: `[0, k)` owning, `[k, 2k)` mutable maps, `[2k, 3k)` constant maps -/
+def slotKind (k i : Nat) : Kind := if i < k then .mem else if i < 2 * k then .map else .cmap
+
+def initSt (rank k : Nat) : St Int := ⟨[], (List.range (3 * k)).map fun i => Obj.default (slotKind k i) rank⟩
+
+/-- where a tensor points: `n` = nullptr; for a map with elements the owning slot of the addressed allocation and the offset
+    inside it (`?` if no slot owns it), `z` for a map without elements -/
+def ptrInfo (st : St Int) (x : Obj) : String :=
+  match x.kind, x.ptr with
+  | .mem, none => "n"
+  | .mem, some _ => "p"
+  | _, p =>
+    if size x.dims = 0 then "z"
+    else match p with
+      | none => "n"
+      | some (b, off) =>
+        match (List.range st.objs.length).find? (fun j =>
+            match st.objs[j]? with
+            | some y => y.kind = .mem ∧ y.ptr = some (b, 0)
+            | none => false) with
+        | some j => s!"{j} {off}"
+        | none => s!"? {off}"
+
+/-- `q o mode`: 0 = dims and pointer, 1 = dims, pointer and elements, 2 = dims and elements -/
+def query (st : St Int) (o mode : Nat) : Option String := do
+  let x ← st.objs[o]?
+  let d := showNats x.dims
+  let p := ptrInfo st x
+  if mode = 0 then pure s!"{d} {p}"
+  else
+    let xs ← x.elems st.heap
+    if mode = 1 then pure s!"{d} {p} {showInts xs}" else pure s!"{d} {showInts xs}"
+
+def pOp : P (Sum (Op Int) (Nat × Nat)) := fun ts =>
+  match ts with
+  | "drop" :: ts => do let (o, ts) ← pNat ts; pure (.inl (.drop o), ts)
+  | "new" :: ts => do let (o, ts) ← pNat ts; let (d, ts) ← pList pNat ts; pure (.inl (.new o d), ts)
+  | "fill" :: ts => do let (o, ts) ← pNat ts; let (v, ts) ← pList pInt ts; pure (.inl (.fill o v), ts)
+  | "ctor" :: ts => do let (o, ts) ← pNat ts; let (s, ts) ← pNat ts; pure (.inl (.ctor o s), ts)
+  | "mctor" :: ts => do let (o, ts) ← pNat ts; let (s, ts) ← pNat ts; pure (.inl (.moveCtor o s), ts)
+  | "assign" :: ts => do let (o, ts) ← pNat ts; let (s, ts) ← pNat ts; pure (.inl (.assign o s), ts)
+  | "assignpre" :: ts => do
+    -- `map = bigger tensor` (the assert of `copy` violated, compiled out): the same call, the model copies `size()` elements
+    let (o, ts) ← pNat ts; let (s, ts) ← pNat ts; pure (.inl (.assign o s), ts)
+  | "massign" :: ts => do let (o, ts) ← pNat ts; let (s, ts) ← pNat ts; pure (.inl (.moveAssign o s), ts)
+  | "resize" :: ts => do let (o, ts) ← pNat ts; let (d, ts) ← pList pNat ts; pure (.inl (.resize o d), ts)
+  | "expr" :: ts => do
+    let (o, ts) ← pNat ts; let (d, ts) ← pList pNat ts; let (v, ts) ← pList pInt ts
+    pure (.inl (.expr o d v), ts)
+  | "slice" :: ts => do
+    let (o, ts) ← pNat ts; let (s, ts) ← pNat ts; let (c, ts) ← pBool ts
+    let (b, ts) ← pNat ts; let (e, ts) ← pNat ts
+    pure (.inl (.slice o s c b e), ts)
+  | "reshape" :: ts => do
+    let (o, ts) ← pNat ts; let (s, ts) ← pNat ts; let (c, ts) ← pBool ts
+    let (z, ts) ← pList pInt ts
+    pure (.inl (.reshape o s c z), ts)
+  | "raw" :: ts => do
+    let (o, ts) ← pNat ts; let (s, ts) ← pNat ts; let (off, ts) ← pNat ts; let (d, ts) ← pList pNat ts
+    pure (.inl (.raw o s off d), ts)
+  | "q" :: ts => do let (o, ts) ← pNat ts; let (m, ts) ← pNat ts; pure (.inr (o, m), ts)
+  -- `assignid o s`: the assignment, then `1` if the destination's data pointer changed (encoded as query mode 100 + s)
+  | "assignid" :: ts => do let (o, ts) ← pNat ts; let (s, ts) ← pNat ts; pure (.inr (o, 100 + s), ts)
+  | _ => none
+
+/-- run the ops one after the other; a fault of the model (an access outside the addressed buffer) ends the output with
+    `fault <op index>` -/
+def histGo (rank : Nat) : Nat → Nat → Toks → St Int → String → Option String
+  | 0, _, ts, _, acc => if ts.isEmpty then some acc else none
+  | n + 1, i, ts, st, acc => do
+    let (op, ts) ← pOp ts
+    match op with
+    | .inr (o, m) =>
+      if m ≥ 100 then
+        match st.objs[o]?, step (-99) st (.assign o (m - 100)) with
+        | some x, some st' =>
+          match st'.objs[o]? with
+          | some x' => histGo rank n (i + 1) ts st' (acc ++ (if x'.ptr = x.ptr then " 0" else " 1"))
+          | none => none
+        | _, _ => some (acc ++ s!" fault {i}")
+      else
+      match query st o m with
+      | some s => histGo rank n (i + 1) ts st (acc ++ " " ++ s)
+      | none => some (acc ++ s!" fault {i}")
+    | .inl op =>
+      -- every dims list of a history has the rank of the history
+      let okRank : Bool := match op with
+        | .new _ d => d.length == rank
+        | .resize _ d => d.length == rank
+        | .expr _ d _ => d.length == rank && rank ≤ 2
+        | .reshape _ _ _ z => z.length == rank
+        | .raw _ _ _ d => d.length == rank
+        | _ => true
+      if !okRank then none
+      else match step (-99) st op with
+        | some st' => histGo rank n (i + 1) ts st' acc
+        | none => some (acc ++ s!" fault {i}")
+
+end Hist
+
 def handle : Toks → Option String
+  | "hist" :: ts => do
+    let (rank, ts) ← pNat ts
+    let (ty, ts) ← pStr ts
+    let (k, ts) ← pNat ts
+    let (n, ts) ← pNat ts
+    guard (1 ≤ rank ∧ rank ≤ 5 ∧ (ty = "i64" ∨ ty = "i32") ∧ 1 ≤ k ∧ k ≤ 4)
+    histGo rank n 0 ts (initSt rank k) "ok"
+  | "arange" :: ts => do
+    let (lo, ts) ← pInt ts
+    let (hi, ts) ← pInt ts
+    guard ts.isEmpty
+    let v ← arange lo hi
+    pure s!"ok {showInts v}"
+  | "removeifn" :: ts => do
+    -- `remove_if(op, tensor, vector)`: the pack is compacted in lock-step
+    let (dims, ts) ← pList pNat ts
+    let (mask, ts) ← pList pBool ts
+    guard ts.isEmpty
+    match dims with
+    | [] => none
+    | d :: ds =>
+      guard (mask.length = d)
+      let a := rows (size ds) d (iota dims).data
+      let b := (List.range d).map fun i => [Int.ofNat (1000 + i)]
+      match removeIfRowsN mask [a, b] with
+      | (k, [a', b']) => pure s!"ok {k} {showInts (a'.flatten.take (k * size ds))} {showInts (b'.flatten.take k)}"
+      | _ => none
+  | "full" :: ts => do
+    let (dims, ts) ← pList pNat ts
+    let (b, ts) ← pNat ts
+    let (e, ts) ← pNat ts
+    let (v, ts) ← pInt ts
+    guard ts.isEmpty
+    let t := seq dims
+    let w ← t.view.slice b e
+    let b' ← w.write t.data (List.replicate (size w.dims) v)
+    pure s!"ok {showT ⟨dims, b'⟩}"
   | "aslice" :: ts => do
     let (dims, ts) ← pList pNat ts
     let (b, ts) ← pNat ts
